@@ -145,6 +145,36 @@ Fixpoint jv_eqb (a b : jv) : bool :=
   | _, _ => false
   end.
 
+(* sequences of calls whose argument lists must stay their own: bind / a Go callback that keeps its
+   argument list / a Go callback that re-enters the interpreter before reading its arguments *)
+Inductive cstep :=
+| SBind (slot : Z) (args : list gscalar)          (* bound_slot = probe.bind("T", args...) ; nothing observed *)
+| SStash (args : list gscalar)                    (* a Go callback keeps call.ArgumentList ; nothing observed *)
+| SProbe (args : list gscalar)                    (* observed: what the callee saw *)
+| SNest (outer inner : list gscalar)              (* a Go callback calls probe(inner...) through the API, THEN reads its own
+                                                     arguments; observed: its own arguments, then what the nested callee saw *)
+| SCallBound (slot : Z) (extra : list gscalar)    (* observed: what the bound function saw: bound arguments ++ extra *)
+| SRecall.                                        (* observed: the kept argument list *)
+
+Fixpoint slot_lookup (b : list (Z * list gscalar)) (slot : Z) : list gscalar :=
+  match b with
+  | [] => []
+  | (k, a) :: r => if k =? slot then a else slot_lookup r slot
+  end.
+
+(* the argument lists the observations must show, in order *)
+Fixpoint seq_expected (bounds : list (Z * list gscalar)) (stash : list gscalar) (steps : list cstep)
+  : list (list gscalar) :=
+  match steps with
+  | [] => []
+  | SBind slot a :: r => seq_expected ((slot, a) :: bounds) stash r
+  | SStash a :: r => seq_expected bounds a r
+  | SProbe a :: r => a :: seq_expected bounds stash r
+  | SNest o i :: r => o :: i :: seq_expected bounds stash r
+  | SCallBound slot e :: r => (slot_lookup bounds slot ++ e) :: seq_expected bounds stash r
+  | SRecall :: r => stash :: seq_expected bounds stash r
+  end.
+
 Inductive case :=
 | CExport (path : Z) (g : gscalar) (obs : ob gscalar)
 | CToFloat (path : Z) (g : gscalar) (onum : Z) (obs : ob Z)
@@ -174,6 +204,8 @@ Inductive case :=
 | CCall (api : Z) (args : list gscalar) (obs_api obs_lang : ob (list (list Z)))
 (* the callee throws / is not callable: error classes of the API call and of the in-language call *)
 | CCallErr (api : Z) (cls_api cls_lang : Z)
+(* a sequence of calls made through the Go API against the same sequence made in-language *)
+| CCallSeq (steps : list cstep) (obs_api obs_lang : list (ob (list (list Z))))
 (* histories of writes and reads of bindings: store 0 = global names (Otto.Set/Get), 1 = properties of a
    script object (Object.Set/Get); via 0 = Go API, 1 = script *)
 | CHistory (ops : list hop) (obs : list cv)
@@ -322,8 +354,25 @@ Definition verdict_call (args : list gscalar) (obs_api obs_lang : ob (list (list
   judge (fun a b => ob_eqb zll_eqb (fst a) (fst b) && ob_eqb zll_eqb (snd a) (snd b))
         (obs_api, obs_lang) (exp, exp) (exp, exp) 0.
 
+Definition arg_desc (g : gscalar) : list Z :=
+  let v := toValue false g in typeof v :: to_string (float_text []) v.
+
+Fixpoint seq_descs (exp : list (list gscalar)) (lang : list (ob (list (list Z)))) : list (ob (list (list Z))) :=
+  match exp with
+  | [] => []
+  | a :: r =>
+      let tag := match lang with OVal (t :: _) :: _ => t | _ => [] end in
+      OVal (tag :: [Z.of_nat (length a)] :: map arg_desc a) :: seq_descs r (tl lang)
+  end.
+
+Definition verdict_callseq (steps : list cstep) (obs_api obs_lang : list (ob (list (list Z)))) : Z * Z :=
+  let exp := seq_descs (seq_expected [] [] steps) obs_lang in
+  let eqb := list_eqb (ob_eqb zll_eqb) in
+  judge (fun a b => eqb (fst a) (fst b) && eqb (snd a) (snd b)) (obs_api, obs_lang) (exp, exp) (exp, exp) 0.
+
 Definition verdict (c : case) : Z * Z :=
   match c with
+  | CCallSeq steps a l => verdict_callseq steps a l
   | CJsVal ty jnum jstr jbool jisnan preds gnan gnum gint gstr gbool =>
       verdict_jsval ty jnum jstr jbool jisnan preds gnan gnum gint gstr gbool
   | CCall _ args obs_api obs_lang => verdict_call args obs_api obs_lang
